@@ -503,8 +503,9 @@ impl World {
                 }
                 self.view[e].handles[h].shutdown = true;
             }
-            ("dropstream", ["unit"]) => {
-                let h: usize = t[1].parse().unwrap();
+            ("dropstream" | "dropmany", ["unit"]) => {
+              for h in t[1..].iter().filter_map(|x| x.parse::<usize>().ok()) {
+                if h >= self.view[e].handles.len() || !self.view[e].handles[h].alive { continue; }
                 // the notification is matched by flow id only (known finding): forget everything
                 self.est[e].clear();
                 self.pend[e].clear();
@@ -539,6 +540,7 @@ impl World {
                     self.aborted.insert((e, h), true);
                 }
                 self.aborted.entry((e, h)).or_insert(false);
+              }
             }
             ("dgsend", ["unit"]) => {
                 self.acc_dgram[e] += 1;
@@ -1205,10 +1207,20 @@ fn run_case(r: &mut Rng, focus: Focus, len: usize) -> World {
             }
             continue;
         }
-        // drop
+        // drop: one stream, or several back to back before the task runs again
         if !live.is_empty() {
-            let h = *r.pick(&live);
-            w.stim(e, &[s("dropstream"), s(h)]);
+            if live.len() >= 2 && r.chance(1, 3) {
+                let mut hs = live.clone();
+                // (random order, 2 or 3 of them)
+                for k in (1..hs.len()).rev() { let j = r.below(k as u64 + 1) as usize; hs.swap(k, j); }
+                hs.truncate(r.range(2, 3) as usize);
+                let mut t = vec![s("dropmany")];
+                t.extend(hs.iter().map(s));
+                w.stim(e, &t);
+            } else {
+                let h = *r.pick(&live);
+                w.stim(e, &[s("dropstream"), s(h)]);
+            }
         }
     }
     if matches!(focus, Focus::C08) && r.chance(1, 3) {
@@ -1756,6 +1768,8 @@ fn link_projections(w: &World) -> Vec<(String, Vec<LinkReq>)> {
                         writer_shutdown = true;
                         reqs.push(LinkReq { req: "shutdown".into(), expect: None, step: i });
                     }
+                    // (several streams dropped at once: this direction is compared up to here)
+                    "dropmany" if (e == we && t[2..].iter().any(|x| x.parse::<usize>().ok() == Some(wh))) || (e == re && t[2..].iter().any(|x| x.parse::<usize>().ok() == Some(rh))) => break,
                     "dropstream" if e == we && t.get(2).and_then(|x| x.parse::<usize>().ok()) == Some(wh) => {
                         writer_alive = false;
                         if !writer_shutdown {
@@ -1826,7 +1840,7 @@ fn attribute(line: &str) -> Vec<&'static str> {
         "read" => vec!["C02", "C03", "C04", "C05"],
         "wstate" => vec!["C04", "C12"],
         "shutdown" => vec!["C05"],
-        "dropstream" => vec!["C06"],
+        "dropstream" | "dropmany" => vec!["C06"],
         "dgsend" | "dgrecv" => vec!["C11"],
         "bindreq" | "bindnext" | "bindreply" | "binddrop" => vec!["C15"],
         "dropmux" | "sinkblock" | "sinkunblock" | "sinkgrant" => vec!["C08", "C02"],
